@@ -31,6 +31,7 @@ MODELLED = ["evo/tools/file_interface.py:write_tum_trajectory_file", "evo/tools/
             "evo/tools/pandas_bridge.py:df_to_trajectory", "evo/core/result.py:Result.add_np_array",
             "evo/core/result.py:Result.add_trajectory"]
 TMP = None
+NHIST = 0
 MODEL_ROWS = 4000        # rows of a huge file that are also pushed through the Lean driver
 
 
@@ -436,7 +437,9 @@ def impl_history(c):
     from evo.tools import file_interface as fi
     d = tempfile.mkdtemp(prefix="hist_", dir=tmpdir())
     os.mkdir(os.path.join(d, "sub"))
-    ext = {"res": "r.zip", "tum": "t.tum", "kitti": "k.kitti", "euroc": "data.csv", "tf": "tf.bin"}[c["target"]]
+    global NHIST
+    NHIST += 1      # a name of its own per history: relative spellings of different cases must not meet in any path-keyed state
+    ext = {"res": "r_%d.zip", "tum": "t_%d.tum", "kitti": "k_%d.kitti", "euroc": "data_%d.csv", "tf": "tf_%d.bin"}[c["target"]] % NHIST
     old = os.getcwd()
     os.chdir(d)
     seen = []
